@@ -164,7 +164,10 @@ impl Driver {
                         let mut s = String::with_capacity(prefix.len() + cap);
                         s.push_str(prefix);
                         while s.capacity() - s.len() > cap { s.push('p'); }
-                        let plen = s.len(); let ptr = s.as_ptr() as usize; let capacity = s.capacity();
+                        let plen = s.len();
+                        // stale valid multi-byte text behind the end (pushed, then truncated away): whatever the call exposes must be its own
+                        { let f = STR_FILLERS[(c.filler / 3) % 3]; let mut k = 0; while k < (c.filler % 4) && s.len() < s.capacity() { s.push('q'); k += 1; } while s.len() + f.len() <= s.capacity() { s.push_str(f); } s.truncate(plen); }
+                        let ptr = s.as_ptr() as usize; let capacity = s.capacity();
                         let pre: Vec<u8> = s.as_bytes().to_vec();
                         let r = catch_unwind(AssertUnwindSafe(|| if c.repl { let (r, rd, h) = d.decode_to_string(src, &mut s, last); (conv_coder(r), rd, h) } else { let (r, rd) = d.decode_to_string_without_replacement(src, &mut s, last); (conv_dec(r), rd, false) }));
                         if s.as_ptr() as usize != ptr || s.capacity() != capacity { out.fails.push((FailKind::Realloc, format!("String reallocated (capacity {} -> {})", capacity, s.capacity()))); }
